@@ -93,9 +93,17 @@ def parseDoc (s : String) : Option (Option (Bool × Option Nat × List (TC × Ou
     | _, _ => none
   | _ => none
 
-def runExec (cram : Bool) (total : Option Nat) (tests : List (TC × Out × Option Nat)) : ExecResult × List (Option Nat) :=
-  if cram then (execScript (tests.map (·.1)) (tests.map (·.2.1)), [])
-  else execAll total (mkRunner tests.toArray) (tests.map (·.1))
+/-- In a Cram document a test status `c-<n>`… is not used; a test that LEAVES the shell is written
+    as status `code n` with `dur = some 1` (marker): the script ends there with that code and no
+    divider is printed for it or anything after it. -/
+def runExec (cram : Bool) (total : Option Nat) (tests : List (TC × Out × Option Nat)) : Option (ExecResult × List (Option Nat)) :=
+  if cram then
+    let before := tests.takeWhile (fun t => t.2.2 ≠ some 1)
+    let script : Status := match tests.find? (fun t => t.2.2 = some 1) with
+      | some t => t.2.1.status
+      | none => .code 0
+    (execScript (tests.map (·.1)) script (before.map (·.2.1))).map (fun r => (r, []))
+  else some (execAll total (mkRunner tests.toArray) (tests.map (·.1)))
 
 /-- `exec <doc>`: executor loop only -/
 def opExec (args : List String) : String :=
@@ -103,8 +111,9 @@ def opExec (args : List String) : String :=
   | [d] =>
     match parseDoc d with
     | some (some (cram, total, tests)) =>
-      let (r, limits) := runExec cram total tests
-      showResult r ++ " limits=" ++ limitsShown total tests limits
+      match runExec cram total tests with
+      | some (r, limits) => showResult r ++ " limits=" ++ limitsShown total tests limits
+      | none => "error"
     | _ => "bad-op"
   | _ => "bad-op"
 
@@ -114,8 +123,8 @@ def opRunDocs (args : List String) : String :=
   | [ds] =>
     match (ds.splitOn "|").mapM parseDoc with
     | some docs =>
-      let outcomes : List (Option (List Outcome)) := docs.map (fun d => d.map (fun (cram, total, tests) =>
-        runDocument (tests.map (·.1)) (runExec cram total tests).1))
+      let outcomes : List (Option (List Outcome)) := docs.map (fun d => d.bind (fun (cram, total, tests) =>
+        (runExec cram total tests).map (fun r => runDocument (tests.map (·.1)) r.1)))
       let showDoc : Option (List Outcome) → String
         | none => "ERR"
         | some os => ",".intercalate (os.map (fun (i, v) => s!"{i}:{match v with | .invalidExit _ _ => "invalid_exit_code" | v => showVerdict v}"))
